@@ -382,6 +382,11 @@ func (f *ChecksumFile) WriteAt(b []byte, off int64) (int, error) {
 	// Users shouldn't create holes in files, and actually supporting holes with ChecksumFile
 	// would be complicated, so we fill the hole with 0s.  Then we can defer to Append to finish the write.
 	if off > size {
+		// A zero-length write never changes a file (write(2)/pwrite(2) semantics): do not
+		// pad the file out to 'off' when there is nothing to write there.
+		if len(b) == 0 {
+			return 0, nil
+		}
 		if e := f.pad(int(off - size)); e != nil {
 			return 0, e
 		}
